@@ -1,6 +1,7 @@
 package main
 
 import (
+	"golang.org/x/tools/go/ssa"
 	"os/exec"
 	"encoding/json"
 	"flag"
@@ -89,6 +90,61 @@ func labelsOf(bc *BoundContract) map[string]bool {
 			out[strings.SplitN(cl.Label, ".", 2)[0]] = true
 		}
 	}
+	return out
+}
+
+// labelsWithCallees: the function's own labels plus the labels of the labelled preconditions of the contracts it calls
+// directly (function contracts and interface method contracts). A labelled precondition becomes an obligation at the call
+// site, in the caller: the caller therefore belongs to that property's check even if none of its own clauses says so.
+func (v *Verifier) labelsWithCallees(bc *BoundContract) map[string]bool {
+	out := labelsOf(bc)
+	if bc.Func == nil {
+		return out
+	}
+	fn := v.ssaFunc(bc.Func)
+	if fn == nil {
+		return out
+	}
+	var visit func(f *ssa.Function)
+	seen := map[*ssa.Function]bool{}
+	visit = func(f *ssa.Function) {
+		if seen[f] {
+			return
+		}
+		seen[f] = true
+		for _, b := range f.Blocks {
+			for _, in := range b.Instrs {
+				if mc, ok := in.(*ssa.MakeClosure); ok {
+					if lit, ok := mc.Fn.(*ssa.Function); ok {
+						visit(lit)
+					}
+				}
+				ci, ok := in.(ssa.CallInstruction)
+				if !ok {
+					continue
+				}
+				call := ci.Common()
+				var cbc *BoundContract
+				if call.IsInvoke() {
+					cbc = v.contractFor(call.Method.FullName())
+				} else if sc := call.StaticCallee(); sc != nil {
+					cbc = v.contractForFn(sc)
+				}
+				if cbc == nil {
+					continue
+				}
+				for _, cl := range cbc.C.Clauses {
+					if cl.Kind == "requires" && cl.Label != "" {
+						out[strings.SplitN(cl.Label, ".", 2)[0]] = true
+					}
+				}
+			}
+		}
+		for _, lit := range f.AnonFuncs {
+			visit(lit)
+		}
+	}
+	visit(fn)
 	return out
 }
 
@@ -285,7 +341,7 @@ func cmdCheck(args []string) int {
 		if bc.C.IsIface || bc.C.Trusted || !strings.HasPrefix(bc.Func.Pkg().Path(), repoModule) {
 			continue
 		}
-		if labelsOf(bc)[*prop] {
+		if v.labelsWithCallees(bc)[*prop] {
 			targets = append(targets, bc)
 		}
 	}
